@@ -18,6 +18,7 @@ import (
 	"sync"
 	"sync/atomic"
 	"testing"
+	"time"
 
 	"github.com/AdguardTeam/AdGuardDNS/internal/filter"
 	"github.com/AdguardTeam/AdGuardDNS/internal/metrics"
@@ -72,9 +73,15 @@ func TestCheck(t *testing.T) {
 	hits0 := hashHitCounters()
 	cust0 := promtest.ToFloat64(metrics.FilterCustomCacheLookupsHits)
 
+	t0 := time.Now()
 	sequentialPhase(r)
+	t1 := time.Now()
 	straddlePhase(r, s)
+	t2 := time.Now()
 	concurrentPhase(r, s)
+	r.Extra("phase_wall_s", map[string]float64{
+		"sequential": t1.Sub(t0).Seconds(), "straddle": t2.Sub(t1).Seconds(), "concurrent": time.Since(t2).Seconds(),
+	})
 
 	r.Bucket("hashprefix_result_cache_hits", int64(hashHitCounters()-hits0))
 	r.Bucket("custom_filter_cache_hits", int64(promtest.ToFloat64(metrics.FilterCustomCacheLookupsHits)-cust0))
@@ -819,6 +826,22 @@ func (h *seqHist) hashRefresh() {
 	h.mutations = append(h.mutations, fmt.Sprintf("step %d: served hash list %s := version %d (was %d); Refresh() of that filter in both twins returned", len(h.log), k, h.c.Hash[k], old))
 	h.logf("hash-refresh %s v%d -> v%d", k, old, h.c.Hash[k])
 	h.probe(k, old, h.c.Hash[k], func(j int) []string { return []string{hashHost(k, j), "www." + hashHost(k, j)} }, h.enabledFor(k))
+	if k != "adult" && !h.aborted {
+		// a blocked response with a non-zero RCODE (HTTPS question, NXDOMAIN or
+		// REFUSED blocking mode), asked twice by the same requester
+		var who []*requester
+		for _, q := range h.enabledFor(k) {
+			if strings.Contains(q.Ident, "mode=nxdomain") || strings.Contains(q.Ident, "mode=refused") {
+				who = append(who, q)
+			}
+		}
+		if len(who) > 0 {
+			q := who[h.rng.IntN(len(who))]
+			for i := 0; i < 2; i++ {
+				h.evalQuery("probe", q, q.customVer(), query{Host: "fixed." + k + ".test", QType: dns.TypeHTTPS})
+			}
+		}
+	}
 }
 
 func (h *seqHist) customUpdate() {
